@@ -1,7 +1,7 @@
 ------------------------------- MODULE GenC20 -------------------------------
 EXTENDS SecretFlow, Json, SequencesExt
 \* a destroyed client cannot do anything more: sequences continue after destroy only with service-side operations
-Sensible(s) == \A i \in 1..Len(s) : s[i] = "destroy" => \A j \in (i + 1)..Len(s) : s[j] \in {"serviceVerify", "decryptTicket", "krbPrivRoundTrip", "keyLookupMiss", "embedTicket", "diagnoseMisfit"}
+Sensible(s) == \A i \in 1..Len(s) : s[i] = "destroy" => \A j \in (i + 1)..Len(s) : s[j] \in {"serviceVerify", "decryptTicket", "krbPrivRoundTrip", "keyLookupMiss", "embedTicket", "diagnoseMisfit", "basicAuth"}
 ASSUME ndJsonSerialize("sequences.ndjson", SetToSeq({ [ops |-> s] : s \in { q \in Sequences : Sensible(q) } }))
 ASSUME PrintT(<<"COUNTS", Cardinality({ q \in Sequences : Sensible(q) })>>)
 =============================================================================
